@@ -20,6 +20,40 @@ SK = "mimium_lang::compiler::parser::green::SyntaxKind"
 TK = "mimium_lang::compiler::parser::token::TokenKind"
 
 
+_FR = {}
+
+
+def fmt_roles(facts):
+    """the printer's primitives by role: `emitters` write a token's text with both of its trivia lists; `trivia` read both
+    trivia lists of a token without writing it; `generic` is the dispatch over every SyntaxKind; `leaf` is what the
+    literal kinds are printed with"""
+    key = id(facts)
+    if key in _FR:
+        return _FR[key]
+    out = {"emitters": set(), "trivia": set(), "generic": set(), "leaf": set()}
+    best = None
+    for g in facts.crate(FMT).fns:
+        if "cst_print" not in g.path or g.kind != "fn" or "::test" in g.path:
+            continue
+        nm = {(callee(t) or "").split("::")[-1] for _, t in g.calls()}
+        if "get_leading_trivia" in nm and "get_trailing_trivia" in nm:
+            if cover.coverage(facts, g, TK) is None:  # a primitive, not a printer that walks children itself
+                (out["emitters"] if "text" in nm else out["trivia"]).add(g.path)
+        cv = cover.coverage(facts, g, SK)
+        if cv is not None and cv.primary is not None and (best is None or len(cv.primary_handled()) > best[0]):
+            best = (len(cv.primary_handled()), g, cv)
+    if best:
+        out["generic"].add(best[1].path)
+        tb = best[2].arm_target("IntLiteral") if "IntLiteral" in best[2].primary_handled() else None
+        if tb is not None:
+            for b in reachable(best[1], tb, stop=[best[2].primary.block]):
+                t = best[1].term(b)
+                if t[KIND] == "call" and (callee(t) or "").startswith("mimium_fmt::"):
+                    out["leaf"].add(callee(t))
+    _FR[key] = out
+    return out
+
+
 def single_token_kinds(facts, pm):
     """SyntaxKind -> 'single' | 'multi' from the parser's node-building sites"""
     kinds = {}
@@ -253,6 +287,38 @@ def rule_trivia_sinks(ck, facts):
     ck.note("printers that read only one trivia map of a token (hand-written comment placement): %s" % sorted(set(partial)))
 
 
+def rule_trivia_lookup(ck, facts):
+    """which token a comment belongs to is looked up by searching the list of syntax-token indices: all of it"""
+    R = "C14.trivia-sinks"
+    n = 0
+    for f in facts.crate(FMT).fns:
+        if f.kind != "fn" or "cst_print" not in f.path or "::test" in f.path:
+            continue
+        rt = (f.d.get("locals") or [""])[0]
+        if "Option<usize>" not in rt or not any("PreParsedTokens" in t for t in f.d.get("locals", [])[1 : f.d.get("argc", 0) + 1]):
+            continue
+        fam = facts.family(FMT, f.root)
+        touches = any("token_indices" in repr(s2) for g in fam for _, s2 in g.all_stmts())
+        if not touches:
+            continue
+        n += 1
+        cut = []
+        for g in fam:
+            for _, t in g.calls():
+                c = callee(t) or ""
+                nm = c.split("::")[-1]
+                full = (t[4].get("full") or "") if isinstance(t[4], dict) else ""
+                if (nm in ("index", "index_mut", "get", "get_mut") and ("Range" in c or "Range" in full)) or nm in ("take", "skip", "split_at", "split_first", "split_last", "take_while", "skip_while", "step_by", "chunks", "first", "last", "truncate"):
+                    cut.append((g, t, nm))
+        key = "lookup|%s" % f.short.split("::")[-1]
+        if cut:
+            g, t, nm = cut[0]
+            ck.bad(R, key, "%s maps a token to its place among the syntax tokens by searching only a part of `token_indices` (`%s`): for the tokens outside that part the lookup answers `None` and the token is printed without the comments attached to it" % (f.short, nm), g.where(t))
+        else:
+            ck.ok(R, key)
+    ck.floor(R, "trivia_owner_lookups", n, 1)
+
+
 def rule_no_postprocess(ck, facts):
     R = "C14.verbatim"
     ck.rule(R, "in the function that renders the document, the rendered text reaches the return value without passing through text-rewriting calls (lines/trim*/replace*/split*/to_lowercase...): token texts stay verbatim")
@@ -342,7 +408,7 @@ def rule_keyword_space(ck, facts):
             hdr = [min(inner, key=lambda l: len(l[1]))[0]] if inner else []
             stop = [cov.primary.block] + hdr
             region = reachable(f, tb, stop=stop)
-            emits = [b for b in region if f.term(b)[KIND] == "call" and (callee(f.term(b)) or "").endswith("emit_token_with_trivia")]
+            emits = [b for b in region if f.term(b)[KIND] == "call" and (callee(f.term(b)) or "") in fmt_roles(facts)["emitters"]]
             if not emits:
                 continue
             n += 1
@@ -557,14 +623,11 @@ def rule_skipped_token_trivia(ck, facts):
     R = "C14.skipped-trivia"
     ck.rule(R, "every arm of a printer's dispatch on the kind of a child *token* (a syntax token, not a trivia token) either emits the token through the trivia-aware emitter, reads that token's trivia itself, or hands the child to the generic printer: an arm that swallows the token (it writes the delimiter itself, or re-creates separators later) drops the comments attached to it")
     TRIVIA = {"Whitespace", "LineBreak", "SingleLineComment", "MultiLineComment", "Eof", "Error"}
-    EMIT = {"get_leading_trivia", "get_trailing_trivia", "cst_to_doc", "print_leaf_children"}
+    FR = fmt_roles(facts)
+    EMIT = {"get_leading_trivia", "get_trailing_trivia"}
     # plus every function of the printer that reads both trivia maps of the token it is given (the token emitter and
-    # trivia-only helpers), found by role
-    for g in facts.crate(FMT).fns:
-        if "cst_print" in g.path and g.kind == "fn":
-            nm = {(callee(t) or "").split("::")[-1] for _, t in g.calls()}
-            if "get_leading_trivia" in nm and "get_trailing_trivia" in nm:
-                EMIT.add(g.short.split("::")[-1])
+    # trivia-only helpers), the generic printer and the leaf printer — all found by role
+    EMIT |= {x.split("::")[-1] for x in FR["emitters"] | FR["trivia"] | FR["generic"] | FR["leaf"]}
     n = 0
     for f in facts.crate(FMT).fns:
         if f.kind == "promoted" or "cst_print" not in f.path or "::tests" in f.path:
@@ -673,7 +736,7 @@ def rule_token_glue(ck, facts):
             if tb is None:
                 continue
             region = set(reachable(f, tb, stop=[cov.primary.block]))
-            emits = [b for b in region if f.term(b)[KIND] == "call" and (callee(f.term(b)) or "").split("::")[-1].startswith("emit_token")]
+            emits = [b for b in region if f.term(b)[KIND] == "call" and (callee(f.term(b)) or "") in fmt_roles(facts)["emitters"]]
             if len(emits) < 2:
                 continue  # the arm writes the token once: not both delimiters
             n += 1
@@ -716,11 +779,12 @@ def run(ck, facts, tier):
     rule_dispatch(ck, facts, pm)
     rule_comment_kinds(ck, facts)
     rule_trivia_sinks(ck, facts)
+    rule_trivia_lookup(ck, facts)
     rule_no_postprocess(ck, facts)
     rule_token_text(ck, facts)
     rule_keyword_space(ck, facts)
     rule_list_items(ck, facts)
     from . import c13
 
-    c13.rule_trivia(ck, facts, loss=False)  # the overwrite clause: trivia the formatter never gets to see
+    c13.rule_trivia(ck, facts, loss=False, lazy=True)  # the overwrite clause: trivia the formatter never gets to see
     ck.not_decided("AST equality of input and output, idempotence, behaviour at every line width (run-time properties of the layout engine)")
